@@ -223,3 +223,415 @@ def virtual_inline(prog, fn, callee_pred, rounds=3):
             _splice(raw, b, callee.raw)
         cur = Fn(fn.crate, raw)
     return cur
+
+
+# ---------------------------------------------------------------------------------------------------------------
+# Closure desugaring: `x.and_then(|v| ..)`, `opt.map(|v| ..)`, `it.try_for_each(|e| ..)`, `f(arg)` for a closure `f`
+# built in the same function ...  The closure body is code of the enclosing function as far as every rule is
+# concerned; after this pass it *is* code of the enclosing function: the combinator call is replaced by the
+# control flow it stands for with the closure body spliced in.  Only std combinators with fixed, documented
+# semantics are rewritten; anything else keeps its opaque call.
+# ---------------------------------------------------------------------------------------------------------------
+RES, OPT = "core::result::Result", "core::option::Option"
+
+
+def _pl(l, *proj):
+    return {"l": l, "p": list(proj)}
+
+
+def _mv(pl):
+    return {"k": "mv", "pl": pl}
+
+
+def _cp(pl):
+    return {"k": "cp", "pl": pl}
+
+
+def _assign(lhs, rhs, span):
+    return {"s": "assign", "lhs": lhs, "rhs": rhs, "span": span, "macros": ["desugar:closure"]}
+
+
+def _agg(adt, variant, ops):
+    return {"rv": "agg", "agg": "adt", "adt": adt, "variant": variant, "fields": ["0"] if ops else [], "ops": ops}
+
+
+def _payload(pl, adt, variant):
+    return {"l": pl["l"], "p": list(pl["p"]) + ["dc:" + variant, "f:%s::%s.0" % (adt, variant)]}
+
+
+class _Builder:
+    def __init__(self, raw, span):
+        self.raw = raw
+        self.span = span
+
+    def local(self, ty="?", name=None):
+        d = {"ty": ty}
+        if name:
+            d["name"] = name
+        self.raw["locals"].append(d)
+        return len(self.raw["locals"]) - 1
+
+    def block(self, stmts=None, term=None):
+        self.raw["blocks"].append({"cleanup": False, "stmts": stmts or [], "term": term})
+        return len(self.raw["blocks"]) - 1
+
+    def goto(self, b):
+        return {"t": "goto", "target": b, "span": self.span}
+
+    def switch_variant(self, pl, arms, otherwise=None):
+        """block that switches on the discriminant of `pl`; arms: {variant index: block}."""
+        d = self.local("isize")
+        unr = otherwise if otherwise is not None else self.block([], {"t": "unreachable", "span": self.span})
+        return self.block([_assign(_pl(d), {"rv": "discr", "pl": pl}, self.span)],
+                          {"t": "switch", "discr": _mv(_pl(d)), "dty": "isize", "span": self.span,
+                           "targets": [[str(k), v] for k, v in sorted(arms.items())], "otherwise": unr})
+
+    def splice_closure(self, clo_raw, clo_operand, args, cont_builder):
+        """Append the closure body; returns (entry block, result local).  `cont_builder(result_local)` must return the
+        block every closure `return` continues at."""
+        raw = self.raw
+        loff = len(raw["locals"])
+        boff = len(raw["blocks"])
+        for loc in clo_raw["locals"]:
+            raw["locals"].append(dict(loc))
+        # reserve the blocks first so that cont_builder's blocks come after them
+        placeholder = len(clo_raw["blocks"])
+        for _ in range(placeholder):
+            raw["blocks"].append(None)
+        cont = cont_builder(loff)
+        for i, blk in enumerate(clo_raw["blocks"]):
+            nb = _map_block(blk, lambda l: l + loff, lambda x: x + boff)
+            tt = nb["term"]
+            if tt is not None and tt["t"] == "return" and not nb["cleanup"]:
+                nb["term"] = {"t": "goto", "target": cont, "span": tt.get("span")}
+            raw["blocks"][boff + i] = nb
+        # entry: bind the environment and the arguments
+        stmts = []
+        if clo_operand is not None:
+            src = clo_operand.get("pl") if clo_operand.get("k") in ("cp", "mv") else None
+            if src is not None:
+                stmts.append(_assign(_pl(loff + 1), {"rv": "ref", "mut": False, "pl": copy.deepcopy(src)}, self.span))
+        base = loff + (2 if clo_raw.get("kind") == "Closure" else 1)
+        for i, a in enumerate(args):
+            if base + i < len(raw["locals"]):
+                stmts.append(_assign(_pl(base + i), {"rv": "use", "a": copy.deepcopy(a)}, self.span))
+        entry = self.block(stmts, self.goto(boff))
+        return entry, loff
+
+
+def _closure_of_operand(prog, fn, op, at):
+    """The closure Fn an operand denotes, if it is a closure built in this very function (single definition)."""
+    if op.get("k") not in ("cp", "mv") or op["pl"]["p"]:
+        if op.get("k") == "c" and isinstance(op.get("v"), dict) and op["v"].get("fn") in prog.fns:
+            return prog.fns[op["v"]["fn"]], None           # a named lib function passed where a closure could stand
+        return None, None
+    l = op["pl"]["l"]
+    for _ in range(6):
+        ds = fn.defs().get(l, [])
+        if len(ds) != 1 or ds[0][1] != "assign" or ds[0][2]["lhs"]["p"]:
+            return None, None
+        rv = ds[0][2]["rhs"]
+        if rv["rv"] == "agg" and rv.get("agg") == "closure" and rv.get("closure") in prog.fns:
+            return prog.fns[rv["closure"]], {"k": "cp", "pl": {"l": l, "p": []}}
+        if rv["rv"] == "use" and rv["a"].get("k") in ("cp", "mv") and not rv["a"]["pl"]["p"]:
+            l = rv["a"]["pl"]["l"]
+            continue
+        if rv["rv"] == "ref" and not rv["pl"]["p"]:
+            l = rv["pl"]["l"]
+            continue
+        return None, None
+    return None, None
+
+
+def _adt_of(ty):
+    ty = ty.lstrip("&").replace("mut ", "")
+    if ty.startswith(RES + "<"):
+        return RES
+    if ty.startswith(OPT + "<"):
+        return OPT
+    return None
+
+
+def _nargs(clo):
+    return clo.arg_count - (1 if clo.kind == "Closure" else 0)
+
+
+def _desugar_site(prog, fn, raw, b, t):
+    """Rewrite one call site if it is a known combinator over a known closure.  Returns True if rewritten."""
+    cal = t.get("callee") or ""
+    nm = cal.rsplit("::", 1)[-1]
+    args = t["args"]
+    span = t.get("span")
+    B = _Builder(raw, span)
+    T = t["target"]
+    if T is None:
+        return False
+    dest = t["dest"]
+
+    def finish(entry_stmts_target):
+        raw["blocks"][b]["term"] = {"t": "goto", "target": entry_stmts_target, "span": span}
+        return True
+
+    # ---- direct call of a local closure: f(a, b)  ==  FnOnce::call_once(f, (a, b))
+    if cal in ("core::ops::function::FnOnce::call_once", "core::ops::function::FnMut::call_mut", "core::ops::function::Fn::call") and len(args) == 2:
+        clo, env = _closure_of_operand(prog, fn, args[0], b)
+        if clo is None or clo.kind != "Closure" or clo.id == fn.id:
+            return False
+        # the argument tuple: an aggregate defined just before
+        tup = args[1]
+        ops = None
+        if tup.get("k") in ("cp", "mv") and not tup["pl"]["p"]:
+            ds = fn.defs().get(tup["pl"]["l"], [])
+            if len(ds) == 1 and ds[0][1] == "assign" and ds[0][2]["rhs"]["rv"] == "agg" and ds[0][2]["rhs"].get("agg") == "tuple":
+                ops = ds[0][2]["rhs"]["ops"]
+        if ops is None or len(ops) != clo.arg_count - 1:
+            return False
+        entry, loff = B.splice_closure(clo.raw, env, ops, lambda ro: B.block([_assign(copy.deepcopy(dest), {"rv": "use", "a": _mv(_pl(ro))}, span)], B.goto(T)))
+        return finish(entry)
+
+    recv_adt = _adt_of((t.get("arg_tys") or [""])[0]) if t.get("arg_tys") else None
+    is_res = cal.startswith(RES + "::")
+    is_opt = cal.startswith(OPT + "::")
+    if (is_res or is_opt) and args and args[0].get("k") in ("cp", "mv"):
+        adt = RES if is_res else OPT
+        good, bad = ("Ok", "Err") if is_res else ("Some", "None")
+        gi, bi = (0, 1) if is_res else (1, 0)
+        recv = args[0]["pl"]
+        if nm in ("map", "and_then", "map_err", "or_else", "unwrap_or_else", "inspect", "inspect_err") and len(args) == 2:
+            clo, env = _closure_of_operand(prog, fn, args[1], b)
+            if clo is None or clo.id == fn.id:
+                return False
+            on_good = nm in ("map", "and_then", "inspect")
+            if nm in ("map_err", "inspect_err") and not is_res:
+                return False
+            if nm == "or_else" and is_opt:
+                n_args = 0
+            else:
+                n_args = 1
+            if _nargs(clo) != (n_args if not (nm == "unwrap_or_else" and is_opt) else 0):
+                return False
+            take = good if on_good else bad
+            payload = [_mv(_payload(recv, adt, take))] if _nargs(clo) == 1 else []
+
+            def cont(ro):
+                if nm == "map":
+                    rhs = _agg(adt, good, [_mv(_pl(ro))])
+                elif nm == "map_err":
+                    rhs = _agg(adt, bad, [_mv(_pl(ro))])
+                elif nm in ("inspect", "inspect_err"):
+                    rhs = {"rv": "use", "a": _mv(copy.deepcopy(recv))}
+                else:            # and_then / or_else / unwrap_or_else: the closure's value is the result
+                    rhs = {"rv": "use", "a": _mv(_pl(ro))}
+                return B.block([_assign(copy.deepcopy(dest), rhs, span)], B.goto(T))
+            entry, loff = B.splice_closure(clo.raw, env, payload, cont)
+            # the untouched side is passed through
+            if nm == "unwrap_or_else":
+                other_rhs = {"rv": "use", "a": _mv(_payload(recv, adt, good))}
+            elif on_good:
+                other_rhs = _agg(adt, bad, [_mv(_payload(recv, adt, bad))] if is_res else [])
+            else:
+                other_rhs = _agg(adt, good, [_mv(_payload(recv, adt, good))])
+            other = B.block([_assign(copy.deepcopy(dest), other_rhs, span)], B.goto(T))
+            arms = {gi: entry, bi: other} if on_good else {bi: entry, gi: other}
+            sw = B.switch_variant(copy.deepcopy(recv), arms)
+            return finish(sw)
+        if nm in ("map_or", "map_or_else") and len(args) == 3:
+            clo, env = _closure_of_operand(prog, fn, args[2], b)
+            if clo is None or clo.id == fn.id or _nargs(clo) != 1:
+                return False
+            entry, loff = B.splice_closure(clo.raw, env, [_mv(_payload(recv, adt, good))],
+                                           lambda ro: B.block([_assign(copy.deepcopy(dest), {"rv": "use", "a": _mv(_pl(ro))}, span)], B.goto(T)))
+            if nm == "map_or":
+                other = B.block([_assign(copy.deepcopy(dest), {"rv": "use", "a": copy.deepcopy(args[1])}, span)], B.goto(T))
+            else:
+                dclo, denv = _closure_of_operand(prog, fn, args[1], b)
+                if dclo is None or dclo.id == fn.id:
+                    return False
+                dargs = [_mv(_payload(recv, adt, bad))] if (is_res and _nargs(dclo) == 1) else []
+                if _nargs(dclo) != len(dargs):
+                    return False
+                other, _ = B.splice_closure(dclo.raw, denv, dargs,
+                                            lambda ro: B.block([_assign(copy.deepcopy(dest), {"rv": "use", "a": _mv(_pl(ro))}, span)], B.goto(T)))
+            sw = B.switch_variant(copy.deepcopy(recv), {gi: entry, bi: other})
+            return finish(sw)
+        return False
+
+    # ---- eager iterator combinators: loops over `next()`
+    if cal.startswith("core::iter::traits::iterator::Iterator::") and nm in ("for_each", "try_for_each", "fold", "try_fold") and args:
+        clo_arg = args[-1]
+        clo, env = _closure_of_operand(prog, fn, clo_arg, b)
+        if clo is None or clo.id == fn.id:
+            return False
+        aty = (t.get("arg_tys") or ["?"])[0]
+        it = args[0]
+        if it.get("k") not in ("cp", "mv"):
+            return False
+        if aty.startswith("&mut "):
+            it_ref = _cp(copy.deepcopy(it["pl"]))
+            pre = []
+        else:
+            r = B.local("&mut " + aty)
+            pre = [_assign(_pl(r), {"rv": "ref", "mut": True, "pl": copy.deepcopy(it["pl"])}, span)]
+            it_ref = _cp(_pl(r))
+        item_ty = OPT + "<?>"
+        nx = B.local(item_ty)
+        loop_head = B.block([], None)                     # filled below
+        acc = None
+        idx = None
+        want_args = {"for_each": 1, "try_for_each": 1, "position": 1, "find": 1, "any": 1, "all": 1, "fold": 2, "try_fold": 2}[nm]
+        if _nargs(clo) != want_args:
+            return False
+        if nm in ("fold", "try_fold"):
+            if len(args) != 3:
+                return False
+            acc = B.local("?")
+            pre.append(_assign(_pl(acc), {"rv": "use", "a": copy.deepcopy(args[1])}, span))
+        if nm == "position":
+            idx = B.local("usize")
+            pre.append(_assign(_pl(idx), {"rv": "use", "a": {"k": "c", "ty": "usize", "v": {"int": "0"}}}, span))
+        item = _payload(_pl(nx), OPT, "Some")
+        if nm == "find":
+            iref = B.local("&?")
+            call_args = [_cp(_pl(iref))]
+            bind = [_assign(_pl(iref), {"rv": "ref", "mut": False, "pl": item}, span)]
+        elif nm in ("fold", "try_fold"):
+            call_args = [_mv(_pl(acc)), _mv(item)]
+            bind = []
+        else:
+            call_args = [_mv(item)]
+            bind = []
+
+        def cont(ro):
+            if nm == "for_each":
+                return B.block([], B.goto(loop_head))
+            if nm == "fold":
+                return B.block([_assign(_pl(acc), {"rv": "use", "a": _mv(_pl(ro))}, span)], B.goto(loop_head))
+            if nm in ("try_for_each", "try_fold"):
+                rty = _adt_of((clo.locals[0].get("ty") if clo.locals else "") or "")
+                if rty != RES:
+                    raise _NoRewrite()
+                stm = [_assign(_pl(acc), {"rv": "use", "a": _mv(_payload(_pl(ro), RES, "Ok"))}, span)] if nm == "try_fold" else []
+                okb = B.block(stm, B.goto(loop_head))
+                errb = B.block([_assign(copy.deepcopy(dest), _agg(RES, "Err", [_mv(_payload(_pl(ro), RES, "Err"))]), span)], B.goto(T))
+                return B.switch_variant(_pl(ro), {0: okb, 1: errb})
+            # bool-valued predicates
+            if nm == "position":
+                hit = B.block([_assign(copy.deepcopy(dest), _agg(OPT, "Some", [_cp(_pl(idx))]), span)], B.goto(T))
+                miss = B.block([_assign(_pl(idx), {"rv": "bin", "op": "Add", "a": _cp(_pl(idx)), "b": {"k": "c", "ty": "usize", "v": {"int": "1"}}, "aty": "usize"}, span)], B.goto(loop_head))
+            elif nm == "find":
+                hit = B.block([_assign(copy.deepcopy(dest), _agg(OPT, "Some", [_mv(item)]), span)], B.goto(T))
+                miss = B.block([], B.goto(loop_head))
+            elif nm == "any":
+                hit = B.block([_assign(copy.deepcopy(dest), {"rv": "use", "a": {"k": "c", "ty": "bool", "v": {"bool": True}}}, span)], B.goto(T))
+                miss = B.block([], B.goto(loop_head))
+            else:   # all
+                hit = B.block([], B.goto(loop_head))
+                miss = B.block([_assign(copy.deepcopy(dest), {"rv": "use", "a": {"k": "c", "ty": "bool", "v": {"bool": False}}}, span)], B.goto(T))
+            return B.block([], {"t": "switch", "discr": _mv(_pl(ro)), "dty": "bool", "span": span, "targets": [["0", miss]], "otherwise": hit})
+        try:
+            entry, loff = B.splice_closure(clo.raw, env, call_args, cont)
+        except _NoRewrite:
+            return False
+        if bind:
+            entry = B.block(bind, B.goto(entry))
+        # exhausted
+        if nm == "for_each":
+            done_rhs = {"rv": "use", "a": {"k": "c", "ty": "()", "v": {"zst": "()"}}}
+        elif nm == "try_for_each":
+            done_rhs = _agg(RES, "Ok", [{"k": "c", "ty": "()", "v": {"zst": "()"}}])
+        elif nm == "fold":
+            done_rhs = {"rv": "use", "a": _mv(_pl(acc))}
+        elif nm == "try_fold":
+            done_rhs = _agg(RES, "Ok", [_mv(_pl(acc))])
+        elif nm in ("position", "find"):
+            done_rhs = {"rv": "agg", "agg": "adt", "adt": OPT, "variant": "None", "fields": [], "ops": []}
+        elif nm == "any":
+            done_rhs = {"rv": "use", "a": {"k": "c", "ty": "bool", "v": {"bool": False}}}
+        else:
+            done_rhs = {"rv": "use", "a": {"k": "c", "ty": "bool", "v": {"bool": True}}}
+        done = B.block([_assign(copy.deepcopy(dest), done_rhs, span)], B.goto(T))
+        sw = B.switch_variant(_pl(nx), {1: entry, 0: done})
+        raw["blocks"][loop_head] = {"cleanup": False, "stmts": [], "term": {
+            "t": "call", "callee": "core::iter::traits::iterator::Iterator::next", "callee_full": "core::iter::traits::iterator::Iterator::next",
+            "callee_trait": "core::iter::traits::iterator::Iterator", "gargs": list((t.get("gargs") or [])[:1]), "resolved": None, "resolved_kind": None,
+            "args": [it_ref], "arg_tys": ["&mut " + aty.replace("&mut ", "")], "dest": _pl(nx), "target": sw, "unwind": None, "macros": ["desugar:closure"],
+            "from_expansion": False, "span": span, "callee_impl_self": None, "virtual": False}}
+        first = B.block(pre, B.goto(loop_head)) if pre else loop_head
+        return finish(first)
+    return False
+
+
+class _NoRewrite(Exception):
+    pass
+
+
+def desugar_closures(prog, max_rounds=4):
+    """Rewrite combinator calls over local closures into explicit control flow, in every function of the lib
+    (closures included, innermost first by iterating to a fixpoint).  Returns the number of rewritten sites."""
+    n = 0
+    absorbed = {}
+    for _round in range(max_rounds):
+        changed = False
+        for fn in list(prog.fns.values()):
+            if fn.crate != "abyssiniandb" or not fn.blocks or len(fn.blocks) > 6 * MAX_BLOCKS:
+                continue
+            sites = [(b, t) for b, t in fn.calls()]
+            raw = None
+            cur = fn
+            for b, t in sites:
+                cal = t.get("callee") or ""
+                if not (cal.startswith((RES + "::", OPT + "::", "core::iter::traits::iterator::Iterator::", "core::ops::function::Fn"))):
+                    continue
+                if raw is None:
+                    raw = copy.deepcopy(fn.raw)
+                    cur = fn
+                try:
+                    used = _closure_args(prog, cur, t, b)
+                    if _desugar_site(prog, cur, raw, b, raw["blocks"][b]["term"]):
+                        n += 1
+                        changed = True
+                        _mark_propagation(raw, raw["blocks"][b], t)
+                        for c in used:
+                            absorbed.setdefault(fn.id, set()).add(c.id)
+                except (KeyError, IndexError, TypeError):
+                    continue
+            if raw is not None and changed:
+                prog.replace_fn(Fn(fn.crate, raw))
+        if not changed:
+            break
+    # a closure whose (only) use was rewritten now lives in its parent: it is no longer a separate body
+    for parent_id, cids in absorbed.items():
+        for cid in cids:
+            c = prog.fns.get(cid)
+            if c is None or c.kind != "Closure":
+                continue
+            prog.adopt_closures(parent_id, cid)
+            prog.drop_closure(cid)
+    return n
+
+
+def _closure_args(prog, fn, t, b):
+    out = []
+    for a in t["args"]:
+        c, env = _closure_of_operand(prog, fn, a, b)
+        if c is not None and c.kind == "Closure":
+            out.append(c)
+    return out
+
+
+def _mark_propagation(raw, blk, t):
+    """If the combinator's result is `?`-ed or returned, its synthesized `dest = Err(..)` blocks are error exits."""
+    d = t["dest"]
+    if d["p"]:
+        return
+    T = t["target"]
+    prop = d["l"] == 0 or d["l"] in raw.get("err_ret_locals", ())
+    if not prop and T is not None:
+        tb = raw["blocks"][T]["term"]
+        if tb is not None and tb["t"] == "call" and (tb.get("callee") or "").endswith("Try::branch") and tb["args"] and tb["args"][0].get("pl", {}).get("l") == d["l"]:
+            prop = True
+        for st in raw["blocks"][T]["stmts"][:2]:
+            if st["s"] == "assign" and st["lhs"]["l"] == 0 and not st["lhs"]["p"] and st["rhs"]["rv"] == "use" and st["rhs"]["a"].get("pl", {}).get("l") == d["l"]:
+                prop = True
+    if prop:
+        raw.setdefault("err_ret_locals", []).append(d["l"])
